@@ -1,6 +1,6 @@
 (* Correspondence cases for C01 (SimpleMRS codec at token level). *)
 From Coq Require Import List NArith ZArith Bool.
-From PyD Require Export Base.Str Model.Hier Model.Mrs Model.Iso Model.SimpleMrs Corr.Common.
+From PyD Require Export Base.Str Model.Hier Model.Mrs Model.Iso Model.SimpleMrs Model.MrsJson Corr.Common.
 Import ListNotations.
 
 Definition lnk_eqb (a b : lnk) : bool :=
@@ -45,9 +45,40 @@ Definition xmrs_match (got expected : xmrs) : bool :=
   forallb (fun kv => option_eqb ss_eqb (dict_get (fst kv) (xm_vars got)) (Some (snd kv))) (xm_vars expected) &&
   Nat.eqb (length (filter nonempty_props (xm_vars got))) (length (xm_vars expected)).
 
+Fixpoint jv_eqb (a b : jv) {struct a} : bool :=
+  match a, b with
+  | JNull, JNull => true
+  | JStr x, JStr y => str_eqb x y
+  | JInt x, JInt y => Z.eqb x y
+  | JObj f, JObj g =>
+      (fix feq (x y : list (str * jv)) : bool :=
+         match x, y with
+         | [], [] => true
+         | (k, v) :: x', (k', v') :: y' => str_eqb k k' && jv_eqb v v' && feq x' y'
+         | _, _ => false
+         end) f g
+  | JArr f, JArr g =>
+      (fix aeq (x y : list jv) : bool :=
+         match x, y with
+         | [], [] => true
+         | v :: x', v' :: y' => jv_eqb v v' && aeq x' y'
+         | _, _ => false
+         end) f g
+  | _, _ => false
+  end.
+
+(* exact comparison, variables included in order (dictionary order is kept by json) *)
+Definition xmrs_eqb (a b : xmrs) : bool :=
+  option_eqb str_eqb (xm_top a) (xm_top b) && option_eqb str_eqb (xm_index a) (xm_index b) &&
+  list_eqb xep_eqb (xm_rels a) (xm_rels b) &&
+  list_eqb c3_eqb (xm_hcons a) (xm_hcons b) && list_eqb c3_eqb (xm_icons a) (xm_icons b) &&
+  list_eqb (pair_eqb str_eqb ss_eqb) (xm_vars a) (xm_vars b) &&
+  lnk_eqb (xm_lnk a) (xm_lnk b) && option_eqb str_eqb (xm_surface a) (xm_surface b).
+
 Inductive case :=
 | CEnc (propopt lnkopt : bool) (m : xmrs) (toks : option (list stok))
-| CDec (toks : list stok) (res : option (list xmrs)).
+| CDec (toks : list stok) (res : option (list xmrs))
+| CJson (propopt lnkopt : bool) (m : xmrs) (d : jv) (back : xmrs).
 
 Definition check_case (c : case) : bool :=
   match c with
@@ -60,4 +91,6 @@ Definition check_case (c : case) : bool :=
       | None, None => true
       | _, _ => false
       end
+  | CJson p l m d back =>
+      option_eqb jv_eqb (to_dict p l m) (Some d) && option_eqb xmrs_eqb (from_dict d) (Some back)
   end.
